@@ -23,7 +23,11 @@ void h_dummy_table(void)
   V_IN(uint32_t, as0);
   V_IN(uint32_t, cost0);
   uint32_t as = as0, nt = 1, cost = cost0; unsigned t, v;
-  V_ASSUME(as >= MIN_ALPHA_SIZE && as <= MAX_ALPHA_SIZE && cost0 < (1u << 28));
+#ifndef DT_LO
+#define DT_LO MIN_ALPHA_SIZE
+#define DT_HI MAX_ALPHA_SIZE
+#endif
+  V_ASSUME(as >= MIN_ALPHA_SIZE && as <= MAX_ALPHA_SIZE && as >= DT_LO && as <= DT_HI && cost0 < (1u << 28));
   s->u.s.tmap_new2old[0] = DT_SLOT; s->u.s.tmap_old2new[DT_SLOT] = 0;
   { unsigned i; for (i = 0; i < MAX_ALPHA_SIZE; i++) s->u.s.length[DT_SLOT ^ 1][i] = 77; }      /* stale content of the unused slot */
 #include "src/extract/dummy_table.inc"
@@ -40,8 +44,8 @@ void h_dummy_table(void)
   V_ASSERT(kraft == ((uint64_t)1 << 20), "dummy table: the code is complete (Kraft sum exactly 1) for every alphabet size 3..258");
   V_ASSERT(mx - mn <= 1 && longer <= 1, "dummy table: lengths are non-decreasing with at most one step of +1 (what the cost formula assumes)");
   V_ASSERT(cost == cost0 + 5 + as + 2 * longer, "dummy table: the bit cost added is its transmitted size (5-bit start value, one stop bit per symbol, 2 bits per length step)");
-  if (as == 256) V_CANARY("alphabet of 256 symbols");
-  if (as == 3) V_CANARY("smallest alphabet");
+  if (as == DT_HI) V_CANARY("largest alphabet of the range");
+  if (as == DT_LO) V_CANARY("smallest alphabet of the range");
 }
 
 /* ================= encode(): padding to a whole number of bytes (C02) ================= */
